@@ -227,3 +227,31 @@ pub fn witness_d5_512_plies_overflow_state_stack() {
         g.push_history(m);     // ply 511 (the 512th push) exceeds the stack: debug assertion in arrayvec / UB in release
     }
 }
+
+/// native (test): the `position` command as a whole on concrete inputs -- the glue around the slices:
+/// a refused FEN is an error and leaves NO position behind (not even a previously loaded one), an accepted
+/// one replaces it, `moves` are played on the new position, an illegal or malformed move is an error and
+/// is not played.
+#[cfg_attr(verif_replay, test)]
+#[cfg(not(kani))]
+pub fn native_position_command() {
+    fn run(data: &mut Data, cmd: &str) -> bool {
+        let mut terms = cmd.split_ascii_whitespace();
+        command_position(data, &mut terms).is_ok()
+    }
+    let mut data = Data { current_game: None, cache: HashMap::with_hasher(BuildNoHashHasher::default()) };
+    assert!(run(&mut data, "startpos moves d2d4 d7d5"), "C12 (test): a legal line is refused");
+    let loaded = data.current_game.as_ref().unwrap().fen();
+    assert!(loaded.starts_with("rnbqkbnr/ppp1pppp/8/3p4/3P4/8/PPP1PPPP/RNBQKBNR w KQkq"), "C12 (test): the line was not played: {}", loaded);
+    for bad in ["rnbqkbn/pppppppp/8/8/8/8/PPPPPPPP/RNBQKBNR w KQkq - 0 1", "8/8/8/8/8/8/8/8 w - - 0 1", "rnbqkbnr/pppppppp/8/8/8/8/PPPPPPPP/RNBQKBNR x KQkq - 0 1",
+                "rnbqkbnr/pppppppp/9/8/8/8/PPPPPPPP/RNBQKBNR w KQkq - 0 1", "rnbqkbnr/pppppppp/8/8/8/8/PPPPPPPP/RNBQKBNR w KQkq z9 0 1"] {
+        assert!(run(&mut data, "startpos"), "C17 (test): startpos refused");
+        let ok = run(&mut data, &format!("fen {} moves e2e4", bad));
+        assert!(!ok, "C17 (test): malformed FEN {:?} accepted without error", bad);
+        assert!(data.current_game.is_none(), "C17 (test): after the refused FEN {:?} a position is still loaded (the previous one would silently be used)", bad);
+    }
+    assert!(run(&mut data, "fen 4k3/8/8/8/8/8/4P3/4K3 w - - 0 1 moves e2e4"), "C17 (test): well-formed FEN with moves refused");
+    assert!(data.current_game.as_ref().unwrap().fen().starts_with("4k3/8/8/8/4P3/8/8/4K3 b - "), "C12 (test): move after `fen ... moves` not played on the imported position");
+    assert!(!run(&mut data, "startpos moves e2e5"), "C12 (test): an illegal move is accepted");
+    assert!(!run(&mut data, "startpos moves e2e4 zz"), "C12 (test): a malformed move is accepted");
+}
